@@ -241,7 +241,13 @@ DiamondPOKG == C("diamondpokg", <<Named(R("r1", TR, 2, "a", "ctorerr", FALSE, <<
                                   R("r4", SC, 1, "a", "ctorerr", TRUE, <<PK("S2"), PK("S2")>>),
                                   R("r5", SC, 0, "a", "ctorerr", TRUE, <<PG("S3"), PG("S3")>>)>>)
 
-CfgMore == {DiamondPO, DiamondPOKG, Alias2Transient, OptionalSing, GroupTransDeps, GroupMixedOK, AliasGroupAsym}
+\* a constructor naming the same dependency twice next to a deeper one (repeated edges in the graph)
+DupDeps == C("dupdeps", <<R("r1", SG, 1, "a", "ctorerr", FALSE, <<>>),
+                          R("r2", SG, 2, "a", "ctorerr", FALSE, <<P("S1")>>),
+                          R("r3", SG, 3, "a", "ctorerr", FALSE, <<P("S2")>>),
+                          R("r4", SG, 0, "a", "ctorerr", FALSE, <<P("S1"), P("S1"), P("S3")>>)>>)
+
+CfgMore == {DupDeps, DiamondPO, DiamondPOKG, Alias2Transient, OptionalSing, GroupTransDeps, GroupMixedOK, AliasGroupAsym}
 
 Plain == {Basic, Chain, Keyed, Group, GroupScoped, GroupDeps, Multi, MultiTr, OutKN, OutKNSing, Alias1, Alias2,
           Alias2Scoped, Diamond2, Optional, Inits, InitSing, Builtin, InstVal, InstVals} \cup CfgForms \cup CfgMore \cup CfgRemoved
